@@ -529,7 +529,12 @@ static ConnReport runPeerClient(const PeerCfg &cfg, uint16_t port)
     if (!ctx) { r.err = e; ::close(fd); return r; }
     SSL *ssl = SSL_new(ctx);
     SSL_set_fd(ssl, fd);
-    if (!cfg.verifyHost.empty()) { SSL_set1_host(ssl, cfg.verifyHost.c_str()); SSL_set_tlsext_host_name(ssl, cfg.verifyHost.c_str()); }
+    if (!cfg.verifyHost.empty())
+    {
+      SSL_set_hostflags(ssl, X509_CHECK_FLAG_NO_PARTIAL_WILDCARDS); // the reference checks names "as configured" in iora
+      SSL_set1_host(ssl, cfg.verifyHost.c_str());
+      SSL_set_tlsext_host_name(ssl, cfg.verifyHost.c_str());
+    }
     ERR_clear_error();
     int rc = SSL_connect(ssl);
     if (rc != 1) r.err = "connect: " + sslErrText();
@@ -750,7 +755,7 @@ static void runTransportClient(const Cell &c, CellOut &o, const string &ctok, co
   o.b("start_ok", st.isOk());
   if (st.isErr()) o.s("start_err", st.error().message);
   string host = c.s("host", "127.0.0.1");
-  bool sync = c.is("api", "sync"), early = c.is("send", "early");
+  bool sync = c.is("api", "sync") || c.is("api", "sync-tlsname"), early = c.is("send", "early");
   string syncRes = "na";
   bool watchdog = false;
   if (st.isOk())
@@ -759,7 +764,11 @@ static void runTransportClient(const Cell &c, CellOut &o, const string &ctok, co
     bool sent = false, over = false;
     if (sync)
     {
-      auto r = t->connectSync(host, relay.port(), TlsMode::Client, std::chrono::milliseconds(7000));
+      // sync-tlsname: the caller resolved the name itself (as HttpClient does) and hands over the address
+      // plus the name the address stands for
+      auto r = c.is("api", "sync-tlsname")
+                 ? t->connectSync("127.0.0.1", relay.port(), TlsMode::Client, std::chrono::milliseconds(7000), host)
+                 : t->connectSync(host, relay.port(), TlsMode::Client, std::chrono::milliseconds(7000));
       if (r.isOk()) { sid = r.value(); syncRes = "ok"; sent = t->send(sid, ctok.data(), ctok.size()); }
       else { syncRes = "err:" + std::to_string(int(r.error().code)) + ":" + r.error().message; over = true; }
     }
@@ -1245,6 +1254,10 @@ int main(int argc, char **argv)
     std::lock_guard<std::mutex> g(rp.m);
     rp.alias["localhost"] = "127.0.0.1";
     rp.alias["evil.example"] = "127.0.0.1";
+    for (const char *n : {"api.example.test", "API.Example.Test", "api.example.test.", "a.b.example.test", "a.b.example.test.",
+                          "x.y.z.example.test", "example.test", "api.other.test", "abc.example.test", "www.foo.example.test",
+                          "sub.api.example.test"})
+      rp.alias[n] = "127.0.0.1";
   }
   std::ifstream in(a.s("cells"));
   if (!in) { fprintf(stderr, "cannot read cells file\n"); return 3; }
